@@ -116,14 +116,25 @@ func c16(out string) {
 	// ------------------------------------------------------------------ setMiningBlob
 	addSet := func(job block.Block, m block.MiningBlob, gen, shape string) {
 		ownHid := job.Commitment().HashingID()
-		// the slave receives the blob as bytes: go through Deserialize when the codec accepts it
-		via := "struct"
-		if len(m.Chains) >= 1 && len(m.Chains) <= config.MAX_MERGE_MINED_CHAINS {
+		// the slave receives the blob as bytes: Deserialize(Serialize) is observed for every blob (0 = same value,
+		// 1 = refused, 2 = another value, 3 = panic) and its result is what setMiningBlob gets when it is accepted
+		via, dec := "struct", uint64(1)
+		func() {
+			defer func() {
+				if recover() != nil {
+					dec = 3
+				}
+			}()
 			m2 := block.MiningBlob{}
 			if err := m2.Deserialize(m.Serialize()); err == nil {
+				if m2.Timestamp == m.Timestamp && m2.Nonce == m.Nonce && m2.NonceExtra == m.NonceExtra && chainsEqual(m2.Chains, m.Chains) {
+					dec = 0
+				} else {
+					dec = 2
+				}
 				m, via = m2, "bytes"
 			}
-		}
+		}()
 		blobBytes := m.Serialize()
 		jb := job
 		jb.OtherChains = cloneChains(job.OtherChains)
@@ -169,11 +180,11 @@ func c16(out string) {
 				nOthers++
 			}
 		}
-		class := fmt.Sprintf("set/%s/%s/others=%d/own=%v/res=%d/recon=%d/pure=%v", gen, shape, min64(uint64(nOthers), 4), hasOwn, res, recon, pure)
-		term := fmt.Sprintf("CSet %d %d %d %d %s %d %d %d %d %s %s %d %s", dn.id(ownHid.Hash[:]),
-			m.Timestamp, m.Nonce, dn.id(m.NonceExtra[:]), packChains(m.Chains), res,
+		class := fmt.Sprintf("set/%s/%s/others=%d/own=%v/dec=%d/res=%d/recon=%d/pure=%v", gen, shape, min64(uint64(nOthers), 4), hasOwn, dec, res, recon, pure)
+		term := fmt.Sprintf("CSet %d %d %d %d %s %d %d %d %d %d %s %s %d %s", dn.id(ownHid.Hash[:]),
+			m.Timestamp, m.Nonce, dn.id(m.NonceExtra[:]), packChains(m.Chains), dec, res,
 			jb.Timestamp, jb.Nonce, dn.id(jb.NonceExtra[:]), packChains(after), coqgen.Bool(restSame), recon, coqgen.Bool(pure))
-		sink.Add(term, class, map[string]any{"kind": "set", "generator": gen, "shape": shape, "via": via, "own_network_id": own,
+		sink.Add(term, class, map[string]any{"kind": "set", "generator": gen, "shape": shape, "via": via, "decode": []string{"same value", "refused", "another value", "panic"}[dec], "own_network_id": own,
 			"own_hash": dn.id(ownHid.Hash[:]), "blob_chains": jsonChains(m.Chains), "blob_timestamp": m.Timestamp, "blob_nonce": m.Nonce,
 			"result": []string{"nil", "error", "panic"}[res], "other_chains_after": jsonChains(after), "other_chains_after_blob": jsonChains(jb.OtherChains),
 			"rest_unchanged": restSame, "reconstructed_blob": []string{"equal", "differs", "panic", "not evaluated"}[recon], "MiningBlob_left_block_intact": pure})
